@@ -58,7 +58,9 @@ def flowOp (toks : List String) : Option Op :=
   | ["flow.rxmsd", sid, v] => do pure (.rxMaxStreamData (← sid.toNat?) (← v.toNat?))
   | ["flow.rxmaxstreams", uni, v] => do pure (.rxMaxStreams (← boolOf uni) (← v.toNat?))
   | ["flow.tp", a, b, c, d, e, f] => do
-    pure (.transportParams ⟨← optNat a, ← optNat b, ← optNat c, ← optNat d, ← optNat e, ← optNat f⟩)
+    pure (.transportParams ⟨← optNat a, ← optNat b, ← optNat c, ← optNat d, ← optNat e, ← optNat f, false⟩)
+  | ["flow.tp", a, b, c, d, e, f, chk] => do
+    pure (.transportParams ⟨← optNat a, ← optNat b, ← optNat c, ← optNat d, ← optNat e, ← optNat f, chk == "1"⟩)
   | ["flow.unblock", uni] => do pure (.unblock (← boolOf uni))
   | ["flow.rxstop", sid] => do pure (.rxStopSending (← sid.toNat?))
   | ["flow.rxsdb", sid] => do pure (.rxStreamDataBlocked (← sid.toNat?))
@@ -93,7 +95,8 @@ def stepFlow (w : FlowW) (toks : List String) : FlowW × String :=
     | some cl, some lmd, some lbl, some lbr, some lu, some lmsb, some lmsu =>
       let qs := q.toList
       let quirks : Quirks := { unblockHeadOnly := qs[0]? == some '1', raiseBeforeWrite := qs[1]? == some '1',
-                               resetKeepsHighest := qs[2]? == some '1', reopenFinished := qs[3]? == some '1' }
+                               resetKeepsHighest := qs[2]? == some '1', reopenFinished := qs[3]? == some '1',
+                               acceptReducedParams := qs[4]? == some '1' }
       let c : Conn := { isClient := cl, localMaxData := Limit.init lmd, localMaxStreamDataBidiLocal := lbl,
                         localMaxStreamDataBidiRemote := lbr, localMaxStreamDataUni := lu,
                         localMaxStreamsBidi := Limit.init lmsb, localMaxStreamsUni := Limit.init lmsu,
